@@ -407,6 +407,51 @@ func (g *tgen) loop(depth int) {
 	default:
 		g.line("YIELD(%s * 10)", v)
 	}
+	switch g.rng.Intn(6) {
+	case 0:
+		// the branch that yields also ends the iteration: nothing behind it may run for this element
+		g.line("if tr.B(%d) {", g.nid())
+		g.line("\tYIELD(%s*10 + 2)", v)
+		g.line("\tcontinue")
+		g.line("}")
+		g.feats["xf:yield-then-continue-in-branch"] = true
+	case 1:
+		g.line("if tr.B(%d) {", g.nid())
+		g.line("\tYIELD(%s*10 + 3)", v)
+		g.line("\tbreak")
+		g.line("} else {")
+		g.line("\ttr.E(%d)", g.nid())
+		g.line("}")
+		g.feats["xf:yield-then-break-in-branch"] = true
+	case 2:
+		// a range the compiler leaves native (pointer to array / func / labelled) with its own break / continue,
+		// inside the consumer loop
+		arr := fmt.Sprintf("arr%d", g.nid())
+		g.line("%s := [4]int{1, 2, 3, 4}", arr)
+		switch g.rng.Intn(3) {
+		case 0:
+			g.line("for _, w := range &%s {", arr)
+		case 1:
+			g.line("for w := range func(yield func(int) bool) {")
+			g.line("\tfor _, x := range %s {", arr)
+			g.line("\t\tif !yield(x) {")
+			g.line("\t\t\treturn")
+			g.line("\t\t}")
+			g.line("\t}")
+			g.line("} {")
+		default:
+			g.line("for w := range %s[0] + 3 {", arr)
+		}
+		g.line("\tif w == 2 && tr.B(%d) {", g.nid())
+		g.line("\t\tcontinue")
+		g.line("\t}")
+		g.line("\tif w == 3 && tr.B(%d) {", g.nid())
+		g.line("\t\tbreak")
+		g.line("\t}")
+		g.line("\ttr.V(%d, w)", g.nid())
+		g.line("}")
+		g.feats["xf:native-range-with-exits-inside"] = true
+	}
 	g.exit(true)
 	g.line("tr.E(%d)", g.nid())
 	g.ind--
